@@ -195,6 +195,32 @@ def bounded_fresh_process_containers(tier, seed):
               "Dict[str, Dict[str, C]]": ("{'a': {'b': WIRE}}", "Dict[str, Dict[str, C]]"), "Optional[Dict[str, C]]": ("{'k': WIRE}", "Optional[Dict[str, C]]"),
               "Dict[str, Optional[C]]": ("{'k': WIRE}", "Dict[str, Optional[C]]"), "List[List[C]]": ("[[WIRE]]", "List[List[C]]")}
     n, failures = 0, []
+    # wire keys that collide after case folding / that differ from the field name only by case: each must keep its own field
+    casefold = textwrap.dedent('''
+        import dataclasses, json, sys
+        from typing import Optional
+        sys.path.insert(0, "/repo/src")
+        from pyopenapi_gen.core.cattrs_converter import structure_from_dict, unstructure_to_dict
+        @dataclasses.dataclass
+        class K:
+            user_id: str
+            user_id_2: Optional[str] = None
+            value: Optional[int] = None
+            Value: Optional[int] = None
+            class Meta:
+                key_transform_with_load = {"userId": "user_id", "userid": "user_id_2"}
+                key_transform_with_dump = {"user_id": "userId", "user_id_2": "userid"}
+        for doc in ({"userId": "a", "userid": "b", "value": 1, "Value": 2}, {"userId": "a"}, {"userId": "a", "Value": 0}):
+            obj = structure_from_dict(doc, K)
+            assert obj.user_id == "a" and obj.user_id_2 == doc.get("userid") and obj.value == doc.get("value") and obj.Value == doc.get("Value"), (doc, obj)
+            back = {k: v for k, v in unstructure_to_dict(obj).items() if v is not None}
+            assert back == doc, (doc, back)
+        print("ok")
+    ''')
+    n += 1
+    p_ = subprocess.run([sys.executable, "-c", casefold], capture_output=True, text=True, timeout=120)
+    if p_.returncode != 0 or "ok" not in p_.stdout:
+        failures.append({"id": "bounded:fresh-process:keys-colliding-after-case-fold", "detail": (p_.stderr or p_.stdout)[-500:], "input": {"wire keys": ["userId", "userid", "value", "Value"]}})
     for label, (value_expr, ann) in shapes.items():
         for top_level in (False, True):
             code = textwrap.dedent(f'''
